@@ -1,5 +1,5 @@
 /-
-L-drop (world): a non-sparse rollback-mode session next to the game it drives, with remote-input
+L-drop (world): a rollback-mode session (either saving mode) next to the game it drives, with remote-input
 arrivals, `advance_frame` calls, and locally detected drops — the `disconnect_player` call and the
 Disconnected event of an endpoint (what a timeout raises). Gossip-driven disconnects
 (`update_player_disconnects` adopting another peer's earlier cut-off) are not steps of this world.
@@ -11,7 +11,7 @@ open InputQueue
 
 /-- An old-style invariant (nobody marked disconnected) is an invariant with dead players. -/
 theorem SessInvD_of_SessInv (s : P2P) (gh : Ghost) (t0 : TLState) (reqs : List Request)
-    (h : SessInv s gh t0 reqs) (hns : s.sparse = false) (hdf : s.disconnectFrame = NULL_FRAME) :
+    (h : SessInv s gh t0 reqs) (hdf : s.disconnectFrame = NULL_FRAME) :
     SessInvD s ⟨gh.specs, gh.hists, gh.T, fun _ => False⟩ t0 reqs s.localConnectStatus := by
   have hconn : ∀ p, p < s.sync.queues.length → (rget s.localConnectStatus p).disconnected = false := by
     intro p hp
@@ -24,8 +24,9 @@ theorem SessInvD_of_SessInv (s : P2P) (gh : Ghost) (t0 : TLState) (reqs : List R
         simp [rget, List.getD_eq_getElem?_getD, List.getElem?_eq_none (by omega : s.localConnectStatus.length ≤ p)]
       rw [this]; rfl
   refine ⟨⟨⟨h.tinv.sync.cur, h.tinv.sync.nq, fun _ _ hg => absurd hg id, ?_⟩, h.tinv.exec, h.tinv.rows, ?_⟩,
-    Marks.refl _, hns, fun p hp _ => h.asked p hp, ?_, fun p hp _ => h.status p hp, h.remote,
-    fun p _ => hconn' p, fun _ _ hg => absurd hg id, Or.inl hdf, fun p hp hd => by rw [hconn p hp] at hd; cases hd⟩
+    Marks.refl _, fun p hp _ => h.asked p hp, ?_, fun p hp _ => h.status p hp, h.remote,
+    fun p _ => hconn' p, fun _ _ hg => absurd hg id, Or.inl hdf, (fun p hp hd => by rw [hconn p hp] at hd; cases hd),
+    fun _ _ _ hg => absurd hg id⟩
   · intro p hp _
     have : pcur (rget s.localConnectStatus p) s.sync.currentFrame = s.sync.currentFrame := by
       unfold pcur; rw [if_neg (by rw [hconn p hp]; simp)]
@@ -37,8 +38,8 @@ theorem SessInvD_of_SessInv (s : P2P) (gh : Ghost) (t0 : TLState) (reqs : List R
 
 theorem SessInvD_rebase (s : P2P) (gh : DGhost) (t0 : TLState) (reqs : List Request) (st0 : List ConnStatus)
     (h : SessInvD s gh t0 reqs st0) : SessInvD s gh (execReqs t0 reqs) [] st0 :=
-  ⟨⟨h.tinv.sync, h.tinv.exec, h.tinv.rows, h.tinv.deadRows⟩, h.marks, h.nonsparse, h.asked, h.pend, h.status,
-    h.remote, h.localAlive, h.safe, h.dfok, h.deadClean⟩
+  ⟨⟨h.tinv.sync, h.tinv.exec, h.tinv.rows, h.tinv.deadRows⟩, h.marks, h.asked, h.pend, h.status,
+    h.remote, h.localAlive, h.safe, h.dfok, h.deadClean, h.saved⟩
 
 /-- What the environment provides when an endpoint's Disconnected event is handled: the handles
 are the remote players behind that address, all still connected (`own`: not yet treated as dead by
@@ -63,7 +64,9 @@ theorem dropFold_specD (gh : DGhost) (t0 : TLState) (reqs : List Request) (st0 :
     SessInvD s' gh t0 reqs st0 ∧ s'.sync = s.sync ∧ s'.handles = s.handles ∧ s'.pred = s.pred ∧
       (∀ g, (rget s.localConnectStatus g).disconnected = true → (rget s'.localConnectStatus g).disconnected = true) ∧
       (hs ≠ [] → ∀ g, g ∈ eph → g < s.sync.queues.length → (rget s'.localConnectStatus g).disconnected = true) ∧
-      (∀ g, (rget s'.localConnectStatus g).lastFrame = (rget s.localConnectStatus g).lastFrame) := by
+      (∀ g, (rget s'.localConnectStatus g).lastFrame = (rget s.localConnectStatus g).lastFrame) ∧
+      (s.sync.currentFrame ≤ L + 1 → s'.disconnectFrame = s.disconnectFrame) ∧
+      (∀ g, g ∉ eph → rget s'.localConnectStatus g = rget s.localConnectStatus g) := by
   intro hs
   induction hs with
   | nil =>
@@ -71,7 +74,7 @@ theorem dropFold_specD (gh : DGhost) (t0 : TLState) (reqs : List Request) (st0 :
     simp only [List.foldlM_nil] at hf
     have := pure_ok hf
     subst this
-    exact ⟨h, rfl, rfl, rfl, fun _ hd => hd, fun hne => absurd rfl hne, fun _ => rfl⟩
+    exact ⟨h, rfl, rfl, rfl, fun _ hd => hd, fun hne => absurd rfl hne, fun _ => rfl, fun _ => rfl, fun _ _ => rfl⟩
   | cons a rest ih =>
     intro s s' h cfg hf
     simp only [List.foldlM_cons] at hf
@@ -82,7 +85,7 @@ theorem dropFold_specD (gh : DGhost) (t0 : TLState) (reqs : List Request) (st0 :
     simp only [ha.1, if_true] at h1
     rw [hown.2] at h1
     have hpt := cfg.pt a List.mem_cons_self
-    obtain ⟨hinv1, hsy1, hh1, hp1, hmono1, hmark1, hL1⟩ := drop_specD s s1 gh t0 reqs st0 now a addr L ep h hpt hep
+    obtain ⟨hinv1, hsy1, hh1, hp1, hmono1, hmark1, hL1, hdf1, hoth1⟩ := drop_specD s s1 gh t0 reqs st0 now a addr L ep h hpt hep
       (by rw [heph]; exact cfg.rem) ⟨ha.2, hown.1, hown.2.symm⟩ cfg.L0 (by rw [heph]; exact cfg.same) h1
     obtain ⟨_, _, _, _, _, _, _, _, _, _, hnp1, hfind1⟩ := P2P.disconnectAt_fields s s1 now a addr L ep hpt hep h1
     have hlp : s1.localPlayerHandles = s.localPlayerHandles := by unfold P2P.localPlayerHandles; rw [hh1]
@@ -105,9 +108,10 @@ theorem dropFold_specD (gh : DGhost) (t0 : TLState) (reqs : List Request) (st0 :
           | false => rfl
           | true => have := hmono1 g hx; rw [hc] at this; cases this
         exact cfg.same g hg hgn hc'
-    obtain ⟨hinv', hsy', hh', hp', hmono', _, hL'⟩ := ih s1 s' hinv1 cfg1 hf
+    obtain ⟨hinv', hsy', hh', hp', hmono', _, hL', hdf', hoth'⟩ := ih s1 s' hinv1 cfg1 hf
     refine ⟨hinv', hsy'.trans hsy1, hh'.trans hh1, hp'.trans hp1, fun g hd => hmono' g (hmono1 g hd), ?_,
-      fun g => (hL' g).trans (hL1 g)⟩
+      fun g => (hL' g).trans (hL1 g), fun hle => (hdf' (by rw [hsy1]; exact hle)).trans (hdf1 hle),
+      fun g hg => (hoth' g hg).trans (hoth1 g (by rw [heph]; exact hg))⟩
     intro _ g hg hgn
     exact hmono' g (hmark1 g (by rw [heph]; exact hg) hgn)
 
@@ -226,11 +230,12 @@ theorem window_allD (s s' : P2P) (gh : DGhost) (t0 : TLState) (reqs reqs' : List
   obtain ⟨sy3, hset, hadv⟩ := bind_ok hadv
   obtain ⟨s4, hreg, hgate⟩ := bind_ok hadv
   obtain ⟨gh1, hsettled, hright⟩ := handleRollbackAndSaveD s s1 confirmed t0 reqs reqs1 gh st0 h.tinv h.marks
-    h.nonsparse h.asked h.pend
+    h.asked h.pend
     (fun p hp hg => by
       have := h.safe p hp hg
-      rw [h.marks.last] at this
-      exact ⟨this.1, this.2.1⟩) hrs
+      have hsv := fun hsp => h.saved hsp p hp hg
+      rw [h.marks.last] at this hsv
+      exact ⟨this.1, this.2.1, hsv⟩) hrs
   have hinv1 := SessInvD_of_settledD s s1 gh gh1 t0 reqs reqs1 st0 h hsettled
   have hc2 := P2P.sendConfirmed_sameCore _ _ _ _ hspec
   have hinv2 := SessInvD_congr s1 s2 gh1 t0 reqs1 _ hinv1 hc2
